@@ -117,6 +117,9 @@ def curated():
          tags=['trigger', 'chain', 'delay']))
     a(mk('shortcut3_sym', ['A', 'B', 'C'], {'A': 'hy', 'B': 'ev', 'C': 'hy'}, [('A', 'B'), ('B', 'C'), ('A', 'C', {'k': 'sym', 'i': 't2'})],
          tags=['trigger', 'chain', 'delay', 'nocache']))
+    # two triggering ancestors with different distances: the far one (time-shifted) may have the earlier queued step
+    a(mk('fanin_trig_sh', ['A', 'B', 'C'], {'A': 'hy', 'B': 'hy', 'C': 'hy'}, [('A', 'C', {'k': 2, 'i': 't'}), ('B', 'C', {'i': 't2'})],
+         tags=['trigger', 'three', 'delay']))
     a(mk('fanin_tb', ['A', 'B', 'C'], {'A': 'tb', 'B': 'tb', 'C': 'hy'}, [('A', 'C', {'i': 'm'}), ('B', 'C', {'i': 't'})],
          tags=['data', 'trigger', 'lazy']))
     a(mk('fanout', ['A', 'B', 'C'], {'A': 'hy', 'B': 'hy', 'C': 'tb'}, [('A', 'B'), ('A', 'C', {'o': 'p'})], tags=['data', 'trigger']))
@@ -204,6 +207,12 @@ def sync_masks(topo, mode='all'):
         yield list(s)
     elif mode == 'async':
         yield []
+    elif mode == 'sync':
+        yield list(s)
+    elif mode == 'sync+one':      # all synchronous, and each single asynchronous simulator
+        yield list(s)
+        for x in s:
+            yield [y for y in s if y != x]
 
 
 # ---------------------------------------------------------------------------
